@@ -321,7 +321,8 @@ def c09_5(ctx, ss):
     # the search covers every table
     loops = [n for n in pf.walk_no_nested(gf.node) if isinstance(n, ast.For)]
     okl = len(loops) == 1 and txt(gflow.expand(loops[0].iter)) in ("self._parsed_decays", "list(self._parsed_decays)", "tuple(self._parsed_decays)") \
-        and not any(isinstance(x, (ast.Break, ast.Continue)) for x in ast.walk(loops[0]))
+        and not any(isinstance(x, (ast.Break, ast.Continue)) for x in ast.walk(loops[0])) \
+        and not [c for c in guards.path_conditions(gf.node, loops[0]) if c[0] in ("if", "exc")]
     (ctx.holds if okl else ctx.violation)("C09.5", ckey(gf, None, "all-tables"), where(gf, loops[0] if loops else gf.node),
                                           "the table of the mother is searched among all parsed decay tables" if okl
                                           else f"_find_decay_modes does not look through every table (`{txt(gflow.expand(loops[0].iter))[:60] if loops else None}`): mothers beyond it are 'not found'")
@@ -341,6 +342,9 @@ def c09_5(ctx, ss):
                     if call and call[0].args and txt(call[0].args[0]) == txt(fd[0].func.value):
                         same_tree = True
         lit = fd and fd[0].args and isinstance(fd[0].args[0], ast.Constant) and fd[0].args[0].value == "decayline"
+        extra = [txt(e) for kind, e, pol in conds if kind == "if" and "get_decay_mother_name" not in txt(gflow.expand(e))]
+        if extra:
+            ctx.violation("C09.5", ckey(gf, r, "extra-guard"), where(gf, r), f"the table lookup additionally depends on `{extra[0][:80]}` (e.g. a memo of earlier misses): an existing table can be reported as not found")
         if ok and same_tree and lit:
             ctx.holds("C09.5", ckey(gf, r), where(gf, r), "returns the decaylines of the tree whose mother name equals the argument", 3)
         else:
@@ -382,3 +386,19 @@ def c09_6(ctx, ss):
         ctx.violation("C09.6", ckey(ff, n), where(ff, n), "build_decay_chains writes parser or module state (result would depend on earlier calls)")
     if not bad:
         ctx.holds("C09.6", ckey(ff, None, "no-state-write"), where(ff, ff.node), "no store to self.* or module state in build_decay_chains", 1)
+    no_state_effects(ctx, ss, "C09.6", ff)
+
+
+def no_state_effects(ctx, ss, rule, ff):
+    """Effect analysis: nothing the function runs (helpers, lookups, accessors) writes parser / class / module state."""
+    from ..core.effects import effects
+    ef = effects(ss)
+    ws = [w for w in ef.transitive_state_writes(ff.key) if not (w.root[0] == "state" and w.root[1] in ("self._grammar", "self._grammar_info"))]
+    k = ckey(ff, None, "no-state-effects")
+    st = [w for w in ws if w.root[0] == "state"]
+    if st:
+        w = st[0]
+        wf = ef.cg.funcs[w.func]
+        ctx.violation(rule, k, where(wf, w.node), f"{ff.qualname} (through {wf.qualname}) writes {w.root[1]} ({w.how}): what it returns depends on earlier calls, possibly of other parser instances")
+    else:
+        ctx.holds(rule, k, where(ff, ff.node), f"{ff.qualname} and everything it calls on the parser write no parser / class / module state", len(ws) + 1)
